@@ -17,7 +17,7 @@ from .ccfg import build_c_cfg, loop_heads
 from .core import AnalysisError
 from .linexpr import Env, IR, Lin, c_ir, py_ir, to_lin
 from .pycfg import Graph, Node, build_py_cfg
-from .pyfacts import Repo, dotted, walk_no_nested
+from .pyfacts import Repo, dotted, norm, walk_no_nested
 
 RUN_REL = 'flipjump/interpreter/fjm_run.py'
 READER_REL = 'flipjump/fjm/fjm_reader.py'
@@ -34,10 +34,37 @@ def _ip_spaces(ip: str) -> Dict[str, str]:
 
 # ================================================================ Python side
 
+def discover_roles_py(fn: ast.AST) -> Dict[str, str]:
+    """the same discovery for the Python run loops: `j == ip` in the halt test with `ip = j` at the jump; f = the third name."""
+    out: Dict[str, str] = {}
+    var_assigns = {(st.targets[0].id, st.value.id) for st in ast.walk(fn) if isinstance(st, ast.Assign) and len(st.targets) == 1
+                   and isinstance(st.targets[0], ast.Name) and isinstance(st.value, ast.Name)}
+    for n in ast.walk(fn):
+        if not isinstance(n, ast.If):
+            continue
+        conj = n.test.values if isinstance(n.test, ast.BoolOp) and isinstance(n.test.op, ast.And) else [n.test]
+        for c in conj:
+            if isinstance(c, ast.Compare) and len(c.ops) == 1 and isinstance(c.ops[0], ast.Eq) and isinstance(c.left, ast.Name) \
+                    and isinstance(c.comparators[0], ast.Name):
+                a, b = c.left.id, c.comparators[0].id
+                pair = (a, b) if (a, b) in var_assigns else (b, a) if (b, a) in var_assigns else None
+                if pair is None:
+                    continue
+                others = {x.id for x in ast.walk(n.test) if isinstance(x, ast.Name)} - set(pair) - {'w', 'dw', 'memory_width'}
+                if len(others) == 1:
+                    out.update(ip=pair[0], j=pair[1], f=others.pop())
+    for st in ast.walk(fn):
+        if isinstance(st, ast.Assign) and norm(st.targets[0]) == 'statistics.op_counter' and isinstance(st.value, ast.Name):
+            out['ops'] = st.value.id
+    return out
+
+
 class PyLoop:
     def __init__(self, repo: Repo, fname: str, roles: Dict[str, str]):
-        self.repo, self.fname, self.roles = repo, fname, roles
         self.fn = repo.func(RUN_REL, fname)
+        found = discover_roles_py(self.fn)
+        roles = {**roles, **{k: v for k, v in found.items() if k in roles}}
+        self.repo, self.fname, self.roles = repo, fname, roles
         self.g = build_py_cfg(self.fn)
         self.loop = self._find_loop()
         self.aliases = self._aliases()
@@ -320,8 +347,59 @@ def classify_lin(lin: Lin, roles: Dict[str, str], space: str) -> Tuple[str, Any]
 MEM_BASE_MARKERS = ('.flat', 'op_words', '.page_cache_words', '.words', 'flat')
 
 
+def discover_roles_c(cu: CUnit, fname: str) -> Dict[str, str]:
+    """the step variables of a C run loop found by what they do (so a consistent rename changes nothing):
+    ops  - the local copied into self->last_run_op_count;
+    ip,j - the two locals of the self-loop halt test `j == ip` (a conjunct comparing two plain locals for equality), ip being
+           the one that is assigned from the other at the jump (`ip = j`);
+    f    - the remaining non-const local of that halt test (the flip address of the self-flip exception)."""
+    body = cu.body(fname)
+    out: Dict[str, str] = {}
+    for n in walk(body):
+        if is_assign(n):
+            l0, r0 = strip(n['inner'][0]), strip(n['inner'][1])
+            if l0.get('kind') == 'MemberExpr' and l0.get('name') == 'last_run_op_count' and r0.get('kind') == 'DeclRefExpr':
+                out['ops'] = r0['referencedDecl']['name']
+    var_assigns = set()
+    for n in walk(body):
+        if is_assign(n):
+            l0, r0 = strip(n['inner'][0]), strip(n['inner'][1])
+            if l0.get('kind') == 'DeclRefExpr' and r0.get('kind') == 'DeclRefExpr':
+                var_assigns.add((l0['referencedDecl']['name'], r0['referencedDecl']['name']))
+    consts = {d['name'] for d in walk(body) if d.get('kind') == 'VarDecl' and 'const' in d.get('type', {}).get('qualType', '').split('*')[-1]}
+    params = set(cu.params(fname))
+    for n in walk(body):
+        if n.get('kind') != 'IfStmt':
+            continue
+        cond = n['inner'][0]
+        for c in lx.conjuncts(c_ir(cond, cu.src_of)):
+            if c[0] == 'cmp' and list(c[1]) == ['=='] and c[2][0][0] == 'sym' and c[2][1][0] == 'sym':
+                a, b = c[2][0][1], c[2][1][1]
+                pair = (a, b) if (a, b) in var_assigns else (b, a) if (b, a) in var_assigns else None
+                if pair is None:
+                    continue
+                ipv, jv = pair
+                out.update(ip=ipv, j=jv)
+    if 'ip' in out:
+        # f: the local V of the self-flip exception `V - ip < 2w` (in the halt test itself or in the cold block it jumps to)
+        cands = set()
+        for n in walk(body):
+            if n.get('kind') in ('IfStmt',):
+                for x in walk(n['inner'][0]):
+                    if x.get('kind') == 'BinaryOperator' and x.get('opcode') == '-':
+                        l0, r0 = strip(x['inner'][0]), strip(x['inner'][1])
+                        if l0.get('kind') == 'DeclRefExpr' and r0.get('kind') == 'DeclRefExpr' and r0['referencedDecl']['name'] == out['ip']:
+                            cands.add(l0['referencedDecl']['name'])
+        cands -= consts | params | {out['j']}
+        if len(cands) == 1:
+            out['f'] = cands.pop()
+    return out
+
+
 class CLoop:
     def __init__(self, cu: CUnit, fname: str, roles: Dict[str, str], consts: Optional[Dict[str, int]] = None):
+        found = discover_roles_c(cu, fname) if fname in cu.funcs and set(roles) >= {'ip', 'j'} and roles.get('ip') != '__none__' else {}
+        roles = {**roles, **{k: v for k, v in found.items() if k in roles}}
         self.cu, self.fname, self.roles = cu, fname, roles
         self.consts = dict(consts or {})
         self.g = build_c_cfg(cu, fname, self.consts)
@@ -334,11 +412,27 @@ class CLoop:
         return self.fname + '[' + ','.join(f'{k}={v}' for k, v in sorted(self.consts.items())) + ']'
 
     def head(self) -> int:
-        hs = loop_heads(self.g, 'do-head') or loop_heads(self.g, 'for-head')
-        if not hs:
+        """the head of the per-op loop: the loop head (do / for join, or while condition) closest after the jump `ip = j` -
+        whatever statement kind spells the loop."""
+        heads = [n.id for n in self.g.nodes if (n.kind == 'join' and n.name in ('do-head', 'for-head')) or (n.kind == 'cond' and n.name == 'while')]
+        if not heads:
             raise AnalysisError(f'{self.fname}: per-op loop head not found')
-        if len(hs) > 1 and loop_heads(self.g, 'do-head'):
-            hs = loop_heads(self.g, 'do-head')
+        ipn, jn = self.roles.get('ip'), self.roles.get('j')
+        jumps = [n.id for n in self.g.nodes if n.kind == 'stmt' and isinstance(n.ast, dict) and is_assign(n.ast)
+                 and self.cu.src_of(n.ast['inner'][0]) == ipn and self.cu.src_of(strip(n.ast['inner'][1])) == jn]
+        if jumps:
+            dist = {jumps[0]: 0}
+            work = [jumps[0]]
+            while work:
+                cur = work.pop(0)
+                for m, _lab in self.g.succ[cur]:
+                    if m not in dist:
+                        dist[m] = dist[cur] + 1
+                        work.append(m)
+            reach = [h for h in heads if h in dist]
+            if reach:
+                return min(reach, key=lambda h: dist[h])
+        hs = loop_heads(self.g, 'do-head') or loop_heads(self.g, 'for-head')
         return hs[0]
 
     def _env(self) -> Env:
